@@ -262,13 +262,13 @@ def check_digest(s, rule, req, hdr, user, epoch):
     if ts >= 1 << 63:
         ts -= 1 << 64
     if ts > epoch or epoch - ts > 600:
-        return "served with a stale (or future) nonce: ts=%d now=%d" % (ts, epoch)
+        return "served with a stale (or future-dated) nonce"
     if rule.secret is not None:
         m2 = re.match(rb"[0-9a-fA-F]{1,16}:([0-9a-fA-F]{1,8}):", nonce)
         if not m2 or ref_nonce(ts, int(m2.group(1), 16), rule.secret) != nonce:
             return "served with a nonce not issued under the rule's nonce-secret"
     # who
-    userhash = dp.get(b"userhash") == b"true"
+    userhash = len(dp.get(b"userhash", b"")) == 4     # lighttpd: any 4-byte value reads as "true"
     if b"username" in dp and b"username*" in dp:
         return "served with both username and username*"
     if b"username" in dp:
@@ -313,7 +313,17 @@ def check_digest(s, rule, req, hdr, user, epoch):
     return None
 
 
+VERBOSE = False
+
+
 def oracle_run(line, out):
+    v = oracle_run_at(line, out)
+    if v is None:
+        return None
+    return ("op %d: %s" % v) if VERBOSE else v[1]
+
+
+def oracle_run_at(line, out):
     s = Scn(line)
     outs = out.split(" ")
     if out in ("cfg-error", "bad-op", "bad-backend", "-"):
@@ -332,13 +342,13 @@ def oracle_run(line, out):
         elif f[0] == "n":
             r = s.rules[int(f[1])]
             if o != "bad-op" and unhx(o) != ref_nonce(int(f[2]), int(f[3]), r.secret):
-                return "op %d: mod_auth_append_nonce differs from the documented nonce format" % i
+                return (i, "mod_auth_append_nonce differs from the documented nonce format")
         if f[0] in ("q", "a") and s.cache != "-":
             # every cached entry is younger than max-age (+ the 8-second cleanup period)
             ma = int(s.cache)
             for m in re.finditer(r"t=(-?\d+)", o):
                 if mono - int(m.group(1)) > max(ma, 0) + 7:
-                    return "op %d: cache entry older than max-age survives (age %d)" % (i, mono - int(m.group(1)))
+                    return (i, "cache entry older than max-age + cleanup period survives")
         if f[0] != "q":
             continue
         res = o.split("|")[0]
@@ -347,30 +357,32 @@ def oracle_run(line, out):
         rule = s.find_rule(path)
         if rule is None:
             if res != "pass":
-                return "op %d: request outside every auth.require rule was not passed through" % i
+                return (i, "request outside every auth.require rule was not passed through")
             continue
         kind = res.split(":")[0]
         if kind == "pass":
-            return "op %d: protected path served without any authentication" % i
+            return (i, "protected path served without any authentication")
         if kind == "go":
             if hdr is None:
-                return "op %d: served without an Authorization header" % i
+                return (i, "served without an Authorization header")
             user = unhx(res.split(":")[1])
             if rule.scheme == "b":
                 v = check_basic(s, rule, hdr, user)
             else:
                 v = check_digest(s, rule, (f[1].encode(), target, f[5] != "0"), hdr, user, epoch)
             if v:
-                return "op %d: %s" % (i, v)
+                return (i, v)
             if twin_outs is not None and len(twin_outs) == len(outs):
                 tres = twin_outs[i].split("|")[0]
-                if tres.split(":")[:2] != res.split(":")[:2]:
-                    return ("op %d: the credential cache turns a refused credential into an accepted one "
-                            "(without auth.cache: %s)" % (i, tres.split(":")[0]))
+                if tres.split(":")[0] != "go":
+                    return (i, "the credential cache turns a refused credential into an accepted one "
+                               "(refused with %s when auth.cache is off)" % tres.split(":")[0])
+                if tres.split(":")[1] != res.split(":")[1]:
+                    return (i, "the credential cache changes the authenticated user (REMOTE_USER)")
         elif kind not in ("401", "400", "500"):
-            return "op %d: refusal is neither 401 nor 400 (%s)" % (i, res)
+            return (i, "refusal is neither 401 nor 400")
         elif kind == "500" and s.backend != "none" and not (s.backend == "htpasswd" and rule.scheme == "d"):
-            return "op %d: 500 from a usable backend" % i
+            return (i, "500 from a usable backend")
     return None
 
 
@@ -695,6 +707,8 @@ class World:
             elif k == "garbage":
                 b = bytearray(hdr)
                 for _ in range(rng.randint(1, 4)):
+                    if len(b) <= 8:
+                        break
                     p = rng.randrange(7, len(b))
                     c = rng.randint(0, 3)
                     if c == 0:
@@ -928,6 +942,8 @@ def replay_line(ctx, rep):
         t, _, _ = C.run_lines([exe], [nocache_twin(line)])
         if t:
             _twin[line] = t[0]
+    global VERBOSE
+    VERBOSE = True
     print("input:", line)
     print("impl :", o, rc, e[-1500:])
     print("model:", m)
